@@ -1070,6 +1070,29 @@ def fam_custom(tier, seed):
         field("c", [(5, 7)], T_nested("In3", 3), syn=2),
     ]
     out.append(struct(mod, "CUBuild", 8, fs, family="CUSTOM"))
+    # conditional enums as field types (their conversion returns Result, so they are used through Option)
+    cnd = mk_enum(mod, "XC2", 2, [0, 1, 1, 3], exh="conditional", cfgs={1: "off", 2: "on"})
+    cnd3 = mk_enum(mod, "XC3", 3, list(range(8)), exh="conditional", cfgs={5: "off"})
+    out += [cnd, cnd3]
+    fs = [
+        field("c2", [(0, 1)], T_enum("XC2", 2, False), syn=3),
+        field("c3", [(2, 4)], T_enum("XC3", 3, False), syn=4),
+        field("c2a", [(8, 9)], T_enum("XC2", 2, False), array={"k": 3, "stride": 2}, syn=5),
+        field("c3n", [(15, 15), (5, 6)], T_enum("XC3", 3, False), syn=6),
+    ]
+    out.append(struct(mod, "CUCond", 16, fs, family="CUSTOM"))
+    out.append(struct(mod, "CUCondD", 16, [f for f in fs if not f["array"]], default={"form": "=", "value": 0xBEEF}, debug=True, family="CUSTOM"))
+    # builders whose steps take arrays of custom types, nested bitfields with their own default, arbitrary-int base
+    fs = [
+        field("ea", [(0, 1)], ety("x", 2), array={"k": 3, "stride": None}, syn=7),
+        field("oa", [(6, 8)], ety("o", 3), array={"k": 2, "stride": 3}, syn=8),
+        field("na", [(12, 14)], T_nested("In3", 3), array={"k": 2, "stride": 4}, syn=9),
+        field("rest", [(20, 23)], T_uint(4), syn=10),
+    ]
+    out.append(struct(mod, "CUBuildArr", 24, fs, default={"form": "=", "value": 0xABCDEF}, family="CUSTOM"))
+    fs = [field("r#type", [(0, 1)], ety("x", 2), syn=11), field("r#match", [(2, 4)], ety("o", 3), syn=12), field("_n", [(5, 7)], T_uint(3), syn=13)]
+    out.append(struct(mod, "CURawNames", 8, fs, debug=True, family="CUSTOM"))
+    out.append(struct(mod, "CURawNamesD", 8, fs, default={"form": "=", "value": 0x5A}, debug=True, family="CUSTOM"))
     # qualified paths to custom types
     fs = [
         field("qa", [(0, 1)], dict(ety("x", 2), name="super::custom::X2"), syn=0),
